@@ -219,8 +219,15 @@ def _mutate(kind, obj, op):
             return None
         if name == "set_elems":
             rng = random.Random(op[1])
-            cyc.cycle_elements = [TrafficLightCycleElement(rng.choice(list(scen.TrafficLightState)), rng.randint(1, 20))
-                                  for _ in range(rng.randint(1, 4))]
+            new = [TrafficLightCycleElement(rng.choice(list(scen.TrafficLightState)), rng.randint(1, 20))
+                   for _ in range(rng.randint(1, 4))]
+            if int(op[1]) % 3 == 0:
+                # the list the getter hands out is edited in place and assigned back: the SAME list object
+                els = cyc.cycle_elements
+                els[:] = new
+                cyc.cycle_elements = els
+            else:
+                cyc.cycle_elements = new
         elif name == "set_offset":
             cyc.time_offset = int(op[1])
         elif name == "set_active":
